@@ -305,6 +305,13 @@ module Coq_Pos =
     | XO p -> XO (mul p y)
     | XH -> y
 
+  (** val iter : ('a1 -> 'a1) -> 'a1 -> positive -> 'a1 **)
+
+  let rec iter f x = function
+  | XI n' -> f (iter f (iter f x n') n')
+  | XO n' -> iter f (iter f x n') n'
+  | XH -> f x
+
   (** val compare_cont : comparison -> positive -> positive -> comparison **)
 
   let rec compare_cont r x y =
@@ -341,6 +348,92 @@ module Coq_Pos =
     | XH -> (match q with
              | XH -> true
              | _ -> false)
+
+  (** val coq_Nsucc_double : n -> n **)
+
+  let coq_Nsucc_double = function
+  | N0 -> Npos XH
+  | Npos p -> Npos (XI p)
+
+  (** val coq_Ndouble : n -> n **)
+
+  let coq_Ndouble = function
+  | N0 -> N0
+  | Npos p -> Npos (XO p)
+
+  (** val coq_lor : positive -> positive -> positive **)
+
+  let rec coq_lor p q =
+    match p with
+    | XI p0 ->
+      (match q with
+       | XI q0 -> XI (coq_lor p0 q0)
+       | XO q0 -> XI (coq_lor p0 q0)
+       | XH -> p)
+    | XO p0 ->
+      (match q with
+       | XI q0 -> XI (coq_lor p0 q0)
+       | XO q0 -> XO (coq_lor p0 q0)
+       | XH -> XI p0)
+    | XH -> (match q with
+             | XO q0 -> XI q0
+             | _ -> q)
+
+  (** val coq_land : positive -> positive -> n **)
+
+  let rec coq_land p q =
+    match p with
+    | XI p0 ->
+      (match q with
+       | XI q0 -> coq_Nsucc_double (coq_land p0 q0)
+       | XO q0 -> coq_Ndouble (coq_land p0 q0)
+       | XH -> Npos XH)
+    | XO p0 ->
+      (match q with
+       | XI q0 -> coq_Ndouble (coq_land p0 q0)
+       | XO q0 -> coq_Ndouble (coq_land p0 q0)
+       | XH -> N0)
+    | XH -> (match q with
+             | XO _ -> N0
+             | _ -> Npos XH)
+
+  (** val ldiff : positive -> positive -> n **)
+
+  let rec ldiff p q =
+    match p with
+    | XI p0 ->
+      (match q with
+       | XI q0 -> coq_Ndouble (ldiff p0 q0)
+       | XO q0 -> coq_Nsucc_double (ldiff p0 q0)
+       | XH -> Npos (XO p0))
+    | XO p0 ->
+      (match q with
+       | XI q0 -> coq_Ndouble (ldiff p0 q0)
+       | XO q0 -> coq_Ndouble (ldiff p0 q0)
+       | XH -> Npos p)
+    | XH -> (match q with
+             | XO _ -> Npos XH
+             | _ -> N0)
+
+  (** val shiftl : positive -> n -> positive **)
+
+  let shiftl p = function
+  | N0 -> p
+  | Npos n1 -> iter (fun x -> XO x) p n1
+
+  (** val testbit : positive -> n -> bool **)
+
+  let rec testbit p n0 =
+    match p with
+    | XI p0 -> (match n0 with
+                | N0 -> true
+                | Npos n1 -> testbit p0 (pred_N n1))
+    | XO p0 -> (match n0 with
+                | N0 -> false
+                | Npos n1 -> testbit p0 (pred_N n1))
+    | XH -> (match n0 with
+             | N0 -> true
+             | Npos _ -> false)
 
   (** val iter_op : ('a1 -> 'a1 -> 'a1) -> positive -> 'a1 -> 'a1 **)
 
@@ -498,10 +591,56 @@ module N =
                   | N0 -> (N0, a)
                   | Npos _ -> pos_div_eucl na b)
 
+  (** val div : n -> n -> n **)
+
+  let div a b =
+    fst (div_eucl a b)
+
   (** val modulo : n -> n -> n **)
 
   let modulo a b =
     snd (div_eucl a b)
+
+  (** val coq_lor : n -> n -> n **)
+
+  let coq_lor n0 m =
+    match n0 with
+    | N0 -> m
+    | Npos p -> (match m with
+                 | N0 -> n0
+                 | Npos q -> Npos (Coq_Pos.coq_lor p q))
+
+  (** val coq_land : n -> n -> n **)
+
+  let coq_land n0 m =
+    match n0 with
+    | N0 -> N0
+    | Npos p -> (match m with
+                 | N0 -> N0
+                 | Npos q -> Coq_Pos.coq_land p q)
+
+  (** val ldiff : n -> n -> n **)
+
+  let ldiff n0 m =
+    match n0 with
+    | N0 -> N0
+    | Npos p -> (match m with
+                 | N0 -> n0
+                 | Npos q -> Coq_Pos.ldiff p q)
+
+  (** val shiftl : n -> n -> n **)
+
+  let shiftl a n0 =
+    match a with
+    | N0 -> N0
+    | Npos a0 -> Npos (Coq_Pos.shiftl a0 n0)
+
+  (** val testbit : n -> n -> bool **)
+
+  let testbit a n0 =
+    match a with
+    | N0 -> false
+    | Npos p -> Coq_Pos.testbit p n0
 
   (** val to_nat : n -> nat **)
 
@@ -514,6 +653,16 @@ module N =
   let of_nat = function
   | O -> N0
   | S n' -> Npos (Coq_Pos.of_succ_nat n')
+
+  (** val setbit : n -> n -> n **)
+
+  let setbit a n0 =
+    coq_lor a (shiftl (Npos XH) n0)
+
+  (** val clearbit : n -> n -> n **)
+
+  let clearbit a n0 =
+    ldiff a (shiftl (Npos XH) n0)
  end
 
 (** val u32MAX : n **)
@@ -1249,6 +1398,80 @@ let rec strip_max r = match r with
 let sp_shrink m =
   { sp_sparse = (rev (strip_max (rev m.sp_sparse))); sp_dense = m.sp_dense;
     sp_indices = m.sp_indices }
+
+(** val bITS : n **)
+
+let bITS =
+  Npos (XO (XO (XO (XO (XO (XO XH))))))
+
+type bs = n list
+
+(** val bs_mem : bs -> n -> bool **)
+
+let bs_mem s i =
+  match nget s (N.div i bITS) with
+  | Some b -> N.testbit b (N.modulo i bITS)
+  | None -> false
+
+(** val bs_insert : bs -> n -> bool * bs **)
+
+let bs_insert s i =
+  let blk = N.div i bITS in
+  let bit = N.modulo i bITS in
+  let s1 = nrepeat_to s (add (N.to_nat blk) (S O)) N0 in
+  (match nget s1 blk with
+   | Some b -> ((negb (N.testbit b bit)), (nset s1 blk (N.setbit b bit)))
+   | None -> (false, s1))
+
+(** val bs_remove : bs -> n -> bool * bs **)
+
+let bs_remove s i =
+  let blk = N.div i bITS in
+  let bit = N.modulo i bITS in
+  (match nget s blk with
+   | Some b -> ((N.testbit b bit), (nset s blk (N.clearbit b bit)))
+   | None -> (false, s))
+
+(** val bs_contains : bs -> n -> bool **)
+
+let bs_contains =
+  bs_mem
+
+(** val bs_or : bs -> bs -> bs **)
+
+let rec bs_or a b =
+  match a with
+  | [] -> b
+  | x :: a' ->
+    (match b with
+     | [] -> a
+     | y :: b' -> (N.coq_lor x y) :: (bs_or a' b'))
+
+(** val bs_disjoint : bs -> bs -> bool **)
+
+let rec bs_disjoint a b =
+  match a with
+  | [] -> true
+  | x :: a' ->
+    (match b with
+     | [] -> true
+     | y :: b' -> (&&) (N.eqb (N.coq_land x y) N0) (bs_disjoint a' b'))
+
+(** val bs_is_empty : bs -> bool **)
+
+let bs_is_empty s =
+  forallb (fun b -> N.eqb b N0) s
+
+(** val strip0 : n list -> n list **)
+
+let rec strip0 r = match r with
+| [] -> []
+| x :: t -> if N.eqb x N0 then strip0 t else r
+
+(** val bs_shrink : bs -> bs **)
+
+let bs_shrink s =
+  rev (strip0 (rev s))
 
 type outcome =
 | Finished
